@@ -21,7 +21,7 @@ vars == <<desc, term, dense, pc, hist>>
 Quick == Tier = "quick"
 
 \* ---- item kinds -----------------------------------------------------------
-NK == 16
+NK == 17
 Item(k, sz) ==
   CASE k = 1 -> Ix_Int(0)
     [] k = 2 -> Ix_Int(-1)
@@ -39,8 +39,10 @@ Item(k, sz) ==
     [] k = 14 -> Ix_T0(-1)
     [] k = 15 -> Ix_Ten([shape |-> <<2, 1>>, data |-> <<0, sz - 1>>])
     [] k = 16 -> Ix_Ten([shape |-> <<1, 2>>, data |-> <<-1, 0>>])
+    \* a stepped slice whose span is not a multiple of the step (the number of selected elements rounds UP)
+    [] k = 17 -> Ix_Sl(1, Ix_None, 2)
 
-ItemOk(k, sz) == (k \in 5..10 => Ix_SlLen(Item(k, sz), sz) >= 1)
+ItemOk(k, sz) == (k \in (5..10) \cup {17} => Ix_SlLen(Item(k, sz), sz) >= 1)
 
 \* the property admits rank >= 2 tensors only when at least two positions carry tensors and a matrix position is among them
 TupleOk(ks, shape) ==
@@ -100,7 +102,7 @@ InvMoved == (Mode = "model" /\ pc = 0) =>
 Cls == <<"Dense", "User", "Diag", "ConstDiag", "Identity", "Zero", "Toeplitz", "Tri", "Chol", "Root", "LowRankRoot",
          "Kron", "KronTri", "KronDiag", "KronAddedDiag", "SumKron", "AddedDiag", "LRRAddedDiag", "Sum", "PsdSum",
          "Matmul", "Mul", "ConstMul", "BlockDiag", "BlockInter", "SumBatch", "BatchRepeat", "Cat", "Interp", "Masked",
-         "Perm", "TransPerm", "Kernel", "SumInterp", "MatmulTri">>
+         "Perm", "TransPerm", "Kernel", "SumInterp", "MatmulTri", "InterpRootSameIdx">>
 RBatches == IF Quick THEN << <<>>, <<2>> >> ELSE << <<>>, <<2>>, <<2, 1>> >>
 NChunks == IF Quick THEN 6 ELSE 24
 DepthOf(c) == IF c \in G_LeafClasses THEN 0 ELSE 1
